@@ -296,6 +296,10 @@ def gen_table(rng, k):
             col["res"] = rng.choice(["s", "ms", "us", "us"] + (["ns", "ns"] if fits_ns else []))
         cols.append(col)
     spec = {"name": name, "destinations": sorted(dests), "transposed": transposed, "columns": cols}
+    if n_col and n_row and rng.random() < 0.3:
+        # row labels of the backing frame are no part of a table: shifted, reversed, permuted, strings, duplicates
+        spec["row_labels"] = rng.choice(["shift", "reverse", "perm", "str", "dup"])
+        spec["row_labels_seed"] = rng.randint(0, 10 ** 6)
     if n_col >= 2 and rng.random() < 0.3:
         # edit-then-write history: the table is built with its columns in another order, consulted once, and its
         # backing frame is then re-arranged in place to the order of `columns` before it is written
@@ -409,13 +413,33 @@ def build_table(spec):
             data[c["name"]] = pd.Series([float(x) for x in v], dtype=np.float64)
         else:
             data[c["name"]] = pd.Series(v, dtype=np.int64)
+    frame_index = None
+    n_rows = len(final[0]["values"]) if final else 0
+    if spec.get("row_labels") and n_rows:
+        import random as _random
+        r = _random.Random(spec.get("row_labels_seed", 0))
+        kind = spec["row_labels"]
+        if kind == "shift":
+            frame_index = [i + 7 for i in range(n_rows)]
+        elif kind == "reverse":
+            frame_index = list(range(n_rows))[::-1]
+        elif kind == "perm":
+            frame_index = list(range(n_rows))
+            r.shuffle(frame_index)
+        elif kind == "str":
+            frame_index = ["r%d" % r.randint(0, 99) + "_%d" % i for i in range(n_rows)]
+        else:
+            frame_index = [r.randint(0, max(0, n_rows // 2)) for _ in range(n_rows)]      # duplicate labels
     with warnings.catch_warnings():
         warnings.simplefilter("ignore")
         if not spec["columns"]:
             t = Table(name=spec["name"], destinations=set(spec["destinations"]))
             t.metadata.transposed = spec["transposed"]
         else:
-            t = Table(pd.DataFrame(data), name=spec["name"], units=[c["unit"] for c in built],
+            frame = pd.DataFrame(data)
+            if frame_index is not None:
+                frame.index = frame_index
+            t = Table(frame, name=spec["name"], units=[c["unit"] for c in built],
                       destinations=set(spec["destinations"]), transposed=spec["transposed"])
             if spec.get("built_order"):
                 # consult the table once, then re-arrange the backing frame in place (plain pandas) to the final order
@@ -1074,7 +1098,8 @@ def run(tier, seed, model_ok, translator, search=False):
     out.rule = ("random sheet maps (1-3 sheets, 0-3 Excel-well-formed tables each: text/onoff/datetime/float/int "
                 "columns, 0-4 columns, 0-5 rows, both orientations, NaN/NaT, unicode; 30% of the tables with >= 2 columns are "
                 "built in another column order, consulted once and re-arranged in place on t.df before writing; a quarter of "
-                "the later column names / second table names are case or normal-form variants of an earlier one) x argument form {list, tuple, generator, iterator, map, bare "
+                "the later column names / second table names are case or normal-form variants of an earlier one; 30% of "
+                "the non-empty frames carry non-default row labels: shifted, reversed, permuted, strings, duplicates) x argument form {list, tuple, generator, iterator, map, bare "
                 "Table; per sheet or as the whole argument} x styles {False, True, 4 custom "
                 "dicts} x sep_lines 1..3 x {path, BytesIO} x sheet_name_pattern; real write_excel -> read_excel; "
                 "non-trivial = at least one table with a column; distinct by sheet map and settings")
@@ -1118,6 +1143,8 @@ def run(tier, seed, model_ok, translator, search=False):
             out.count("pattern:" + ("none" if case["pattern"] is None else "regex"))
             out.count("sheets:%d" % len(sheets))
             for t in tabs:
+                if t.get("row_labels"):
+                    out.count("row labels of the backing frame:" + t["row_labels"])
                 if t.get("built_order"):
                     out.count("history: built, consulted, columns re-arranged in place, then written")
                 out.count("orientation:" + ("transposed" if t["transposed"] else "rowwise"))
@@ -1231,7 +1258,16 @@ def fixed_cases(seed):
                              col("MASS", "num", "KG", ["3.0", "nan"]), col("é", "onoff", "onoff", [True, False]),
                              col("e\u0301", "num", "Kg", ["4.5", "5.5"])])
     cvt = dict(cv, name="case", transposed=True)
-    shapes = [[cv, cvt], [rcol], [rh], [th, rh], [z], [zt], [r0], [t0], [r], [t], [z, z], [zt, z], [z, zt], [r, z], [z, r], [t, z, t0, r0], [r0, t0, zt, r, t1],
+    lab = []
+    for i, kind in enumerate(["shift", "reverse", "perm", "str", "dup"]):
+        lt = tab("lab%d" % i, bool(i % 2), [col("k", "text", "text", ["a", "b", "c", "d"]),
+                                             col("when", "datetime", "datetime", ["2020-01-04T00:00:00", None,
+                                                                                  "2020-01-02T03:04:05", "1999-12-31T23:59:59"]),
+                                             col("x", "num", "m", ["4.0", "3.0", "nan", "1.0"])])
+        lt["row_labels"], lt["row_labels_seed"] = kind, i
+        lt["columns"][1]["res"] = ["s", "ms", "us", "ns", "us"][i]
+        lab.append(lt)
+    shapes = [lab[:3], lab[3:], [cv, cvt], [rcol], [rh], [th, rh], [z], [zt], [r0], [t0], [r], [t], [z, z], [zt, z], [z, zt], [r, z], [z, r], [t, z, t0, r0], [r0, t0, zt, r, t1],
               [t1], [t1, z], []]
     cases = []
     for i, tabs in enumerate(shapes):
